@@ -24,10 +24,10 @@ RULE = ('one run = one seeded history of cursor calls (execute/fetchone/fetchman
 ASSUMPTIONS = [
     'rows fed to the model come from the engine below the cursor (compile + execute_query on a fresh connection): only the cursor layer is judged',
     'behaviour after a failed execute is not pinned by the property: the model keeps the alternatives {unchanged, cleared} and only a torn mixture is a violation',
-    'iteration is judged on complete iterations only; whether it consumes the rows is left open (both PEP 249 and beanquery semantics accepted)',
+    'iteration (complete or partial) is a way of fetching: rows it delivered are not delivered again and count in rownumber (PEP 249 next() == fetchone())',
     'type_code is only required to be non-None and equal for equal datatypes within a run',
 ]
-PROBES = ['large_result_over_64_rows', 'caller_mutates_returned_list', 'executemany', 'executemany_with_arraysize_set', 'fetchmany_beyond_remainder', 'fetch_after_exhaustion', 'reexecute_with_rows_pending', 'failed_execute_then_fetch',
+PROBES = ['partial_iteration', 'large_result_over_64_rows', 'caller_mutates_returned_list', 'executemany', 'executemany_with_arraysize_set', 'fetchmany_beyond_remainder', 'fetch_after_exhaustion', 'reexecute_with_rows_pending', 'failed_execute_then_fetch',
           'rowcount_after_partial_fetch', 'description_slice', 'two_cursors_both_pending', 'empty_result', 'fetch_before_execute',
           'arraysize_default_used', 'iterate_after_partial_fetch']
 
@@ -116,6 +116,8 @@ def generate(rng, tier, run):
                         op['fault'] = {'kind': 'storage', 'table': 't0', 'row': rng.randint(0, max(0, nrows))}
                     elif f < 0.12:
                         op['fault'] = {'kind': rng.choice(['udf', 'cancel']), 'k': 0, 'n': rng.randint(0, max(0, nrows))}
+            elif kname == 'iter':
+                op['n'] = None if rng.random() < 0.6 else rng.randint(0, nrows + 1)
             elif kname == 'mutate_result':
                 op['how'] = rng.choice(['clear', 'append', 'reverse', 'pop'])
             elif kname == 'executemany':
@@ -181,14 +183,11 @@ def model_step(s, op, obs):
         exp = s.remaining()
         return ([s.but(pos=s.pos + len(exp))] if obs == exp else []), exp
     if k == 'iter':
-        exp = s.remaining()
-        if obs != exp:
-            return [], exp
-        # whether a complete iteration consumes the rows is left open
-        alts = [s]
-        if exp:
-            alts.append(s.but(pos=s.pos + len(exp)))
-        return alts, exp
+        # iteration is one more way of fetching: it delivers the remaining rows in order and they are then
+        # fetched ("no row twice" across any sequence of fetch and iteration calls, rownumber counts them)
+        n = op.get('n')
+        exp = s.remaining() if n is None else s.remaining()[:n]
+        return ([s.but(pos=s.pos + len(exp))] if obs == exp else []), exp
     if k == 'rowcount':
         if s.cleared:
             return ([s] if obs in (-1, 0) else []), [-1, 0]
@@ -449,7 +448,13 @@ def execute(case, keep_log=False):
                     if not isinstance(r_, (list, tuple)):
                         violation('fetch-returns-sequence', ci, oi, op, 'list', type(r_).__name__)
                 elif k == 'iter':
-                    obs = canon_rows(list(cur))
+                    if op.get('n') is None:
+                        obs = canon_rows(list(cur))
+                    else:
+                        # a partial iteration: take the first n items of a fresh iterator, then leave it
+                        import itertools
+                        obs = canon_rows(list(itertools.islice(iter(cur), op['n'])))
+                        S.probes['partial_iteration'] += 1
                 elif k == 'rowcount':
                     obs = cur.rowcount
                 elif k == 'rownumber':
